@@ -295,18 +295,17 @@ func Write(c CMap, f Format) []byte {
 	for i := range hi {
 		hi[i] = 0xFF
 	}
+	var cs []entry
 	if f.CodeSpaces == 2 {
 		mid1 := append([]byte{}, hi...)
 		mid1[0] = 0x7F
 		mid2 := append([]byte{}, lo...)
 		mid2[0] = 0x80
-		w.sb.WriteString("2 begincodespacerange" + eol)
-		w.sb.WriteString(w.hex(lo) + f.Gap + w.hex(mid1) + eol)
-		w.sb.WriteString(w.hex(mid2) + f.Gap + w.hex(hi) + eol)
-		w.sb.WriteString("endcodespacerange" + eol)
+		cs = []entry{{w.hex(lo), w.hex(mid1)}, {w.hex(mid2), w.hex(hi)}}
 	} else {
-		w.sb.WriteString("1 begincodespacerange" + eol + w.hex(lo) + f.Gap + w.hex(hi) + eol + "endcodespacerange" + eol)
+		cs = []entry{{w.hex(lo), w.hex(hi)}}
 	}
+	w.section("codespacerange", cs)
 
 	// group blocks into sections
 	var chars, ranges []entry
